@@ -50,25 +50,11 @@ def Excl_shapeSFloor (shape : Shape) (sls : List (Option Sl)) : Bool :=
       decide (s.step > 1) && decide (0 ≤ s.start) && decide (s.start < e) && (e - s.start) % s.step != 0
     | none => false)
 
-/-- F16 (C13): a tensor that is not a view but whose storage window is longer than its size (a clone
-    of a non-contiguous view) passes Reshape's guards, has its strides overwritten and then fails
-    the sanity check: an error is returned and the tensor is left corrupted. -/
+/-- F16 (what remains after the repairs of `Reshape` and `Transpose()`, which compact such a tensor): a tensor that is
+    not a view but whose storage window is longer than its size (a clone of a non-contiguous view) is refused by
+    `handleFuncOpts` as `WithReuse` / `WithIncr` destination (`reuse.len() != expShape.TotalSize()`). -/
 def Excl_reshapeLongWindow (t : Dense) : Bool :=
   !t.view && (t.win.len : Int) != totalSize t.ap.shape
-
-/-- F97 (C13): a tensor that is not a view and has no pending transpose, but whose strides are not the default
-    strides of its shape and order flag (a clone of a slice of a lazily transposed tensor keeps the slice's permuted
-    strides and the parent's order flag): Reshape installs the default strides of the new shape and moves no data. -/
-def Excl_reshapeStrides (t : Dense) : Bool :=
-  !t.view && t.old.isNone && !isScalar t.ap.shape && t.ap.strides != Dense.defaultStrides t.ap.o.col t.ap.shape
-
-/-- F120 (C20, build `inplacetranspose` only): the pattern a physical transposition starts from (`old`) is itself a
-    permuted pattern — the copy `SafeT` made of a lazily transposed tensor. The default build moves the data with
-    iterators and is right; the in-place build follows index cycles computed for a standard layout and panics. -/
-def Excl_transposeFromPermuted (t : Dense) : Bool :=
-  match t.old with
-  | some o => !isVector t.ap.shape && !isScalar t.ap.shape && o.strides != Dense.defaultStrides o.o.col o.shape
-  | none => false
 
 /-- F31 (C07/C11): scalar-on-the-left comparison with same-type output on an iterator path: the
     generated code walks the (contiguous) result buffer with the *operand's* iterator offsets
